@@ -51,3 +51,12 @@ Print Assumptions C03_complete.
 (* non-vacuity of the time bound: year 9999's last second is representable *)
 Example C03_year_9999 : 253402300799 <= TS_MAX.
 Proof. vm_compute. discriminate. Qed.
+
+(* ---- tie to the source: the integer literals of the functions this property's model stands for
+   (private constants, bounds, unit factors; the files are SiteMap.files_C03) are today the ones the
+   model was written against. Gen/Sites.v num_literals is regenerated from /repo on every run; a
+   changed, added or removed number in a modelled function breaks this obligation ---- *)
+Require RV.Gen.Sites RV.Model.SiteMap.
+Theorem C03_literals_reviewed : RV.Model.SiteMap.literals_ok RV.Model.SiteMap.files_C03.
+Proof. repeat constructor. Qed.
+Print Assumptions C03_literals_reviewed.
